@@ -132,10 +132,15 @@ pub enum Value<'a> {
 
 impl<'a> Value<'a> {
     /// Clones the value, placing any array backing stores in the given arena.
-    /// Strings use zero-cost clone. Numbers/bools/null are trivial copies.
+    /// Borrowed strings (source literals) are shared; owned strings are copied,
+    /// because their pool slot or frame block can be recycled while the clone
+    /// is still in use. Numbers/bools/null are trivial copies.
     fn clone_into(&self, arena: &'a Arena) -> Self {
         match self {
-            Value::Str(cow) => Value::Str(cow.clone()),
+            Value::Str(ArenaCow::Borrowed(s)) => Value::Str(ArenaCow::Borrowed(s)),
+            Value::Str(ArenaCow::Owned(s)) => {
+                Value::Str(ArenaCow::Owned(ArenaString::from_str(arena, s.as_str())))
+            }
             Value::Number(n) => Value::Number(*n),
             Value::Bool(b) => Value::Bool(*b),
             Value::Host(host) => Value::Host(host.clone_into(arena)),
